@@ -1,3 +1,4 @@
+import SqlgrepModel.Model.JsonDoc
 import SqlgrepModel.Model.Lex
 import SqlgrepModel.Model.ParseStmt
 import SqlgrepModel.Model.Lower
@@ -99,16 +100,16 @@ def getTable (ts : List Table) (name : String) : Option Table := ts.reverse.find
 structure LineFacts where
   captures : List (Text × Option (List (Option Text))) := []   -- regex source ↦ `Regex::captures(line)` (group texts)
   splits : List (Text × List Text) := []                       -- regex source ↦ `Regex::split(line)`
-  json : Option Json := none                                   -- `serde_json::from_str(line)`
+  json : Option (Option Json) := none                          -- `serde_json::from_str(line)` (`some none` = an error); `none` = no fact shipped: `JsonDoc.docOfLine` computes it
   deriving Inhabited
 
 /-- all external facts of one run -/
 structure Facts where
   classes : List (Char × Lex.CharInfo) := []          -- Unicode classes / lower-casing of non-ASCII characters
-  numbers : List (List Char × Lex.FloatAns) := []     -- `f64::from_str` of number texts of the SQL texts
+  numbers : List (List Char × Lex.FloatAns) := []     -- `f64::from_str` of number texts of the SQL texts (optional: a cross-check of `DecFloat.parseF64`)
   regexValid : List (List Char × Bool) := []          -- `Regex::new(pattern).is_ok()`
   lines : List (Text × LineFacts) := []               -- per input line
-  f64 : List (Text × Option Nat) := []                -- `f64::from_str` of texts extraction may convert to REAL
+  f64 : List (Text × Option Nat) := []                -- `f64::from_str` of texts extraction may convert to REAL (optional: a cross-check of `DecFloat.parseF64N`)
   eval : Sqlgrep.Oracles := {}                        -- the evaluator's tables (casts, `regexp_matches`, `upper`/`lower`)
   reals : List (Nat × Print.Bytes × Print.Bytes) := []  -- REAL bits ↦ `{:.2}` rendering, serde_json rendering
   fs : List (String × List Nat) := []                 -- the files that exist besides the input files: path ↦ content
@@ -124,43 +125,15 @@ def classesCover (F : Facts) (text : List Char) : Bool :=
 
 def regexValidOf (F : Facts) (p : List Char) : Option Bool := F.regexValid.lookup p
 
-def extractOracles (F : Facts) : Extract.Oracles := { parseF64 := fun t => (F.f64.lookup t).join }
+def extractOracles (F : Facts) : Extract.Oracles := Extract.Oracles.withFacts F.f64
 
 def lineOracle (line : Text) (f : LineFacts) : LineOracle :=
   { line := line
     captures := fun re => (f.captures.lookup re).join
     split := fun re => (f.splits.lookup re).getD []
-    json := f.json }
-
-mutual
-/-- the string leaves of a JSON tree (what a CONVERT column may hand to `f64::from_str`) -/
-def jsonStrings : Json → List Text
-  | .str s => [s]
-  | .arr xs => jsonStringsList xs
-  | .obj kvs => jsonStringsMembers kvs
-  | _ => []
-def jsonStringsList : List Json → List Text
-  | [] => []
-  | x :: xs => jsonStrings x ++ jsonStringsList xs
-def jsonStringsMembers : List (List Nat × Json) → List Text
-  | [] => []
-  | (_, v) :: kvs => jsonStrings v ++ jsonStringsMembers kvs
-end
-
-def baseType : VType → VType
-  | .array e => baseType e
-  | t => t
-
-/-- the texts extraction under `d` may convert to REAL on this line: group texts, split fields, the line, JSON strings -/
-def realCandidates (d : TableDef) (line : Text) (f : LineFacts) : List Text :=
-  if d.columns.any (fun c => baseType c.type == .real) then
-    line :: (d.patterns.flatMap (fun p => match p.mode with
-      | .captures => ((f.captures.lookup p.regex).join.getD []).filterMap id
-      | .split => (f.splits.lookup p.regex).getD []))
-    ++ (match f.json with
-        | some j => jsonStrings j
-        | none => [])
-  else []
+    json := match f.json with
+      | some j => j                        -- a shipped fact (cross-checked against the computed document by the driver)
+      | none => JsonDoc.docOfLine line }   -- `serde_json::from_str` as computed by `Model/JsonDoc.lean`
 
 /-- every fact `TableDefinition::extract(line)` asks the libraries for has been shipped -/
 def factsCover (F : Facts) (d : TableDef) (line : Text) : Bool :=
@@ -170,7 +143,7 @@ def factsCover (F : Facts) (d : TableDef) (line : Text) : Bool :=
     d.patterns.all (fun p => match p.mode with
       | .captures => (f.captures.lookup p.regex).isSome
       | .split => (f.splits.lookup p.regex).isSome)
-    && (realCandidates d line f).all (fun t => (F.f64.lookup t).isSome)
+    -- `f64::from_str` facts (`F.f64`) are not required: a text without one is converted by `DecFloat.parseF64N`
 
 /-- one item of `BufRead::lines` as the batch loop sees it: unreadable, or the line with `TableDefinition::extract(line)`;
 `none` = a fact is missing -/
